@@ -29,6 +29,8 @@ pub fn registry() -> Vec<Box<dyn Scenario>> {
         Box::new(Faults),
         Box::new(Isolate),
         Box::new(Alpide),
+        Box::new(StatsRt),
+        Box::new(Custom),
     ]
 }
 
@@ -2385,5 +2387,352 @@ impl Scenario for Alpide {
             runs.push(crate::trials::AlpideRun { spec, frames: fexp, flags: run_flags });
         }
         Trial::Alpide { runs, flags, label }
+    }
+}
+
+// ------------------------------------------------------------------------------------------------
+// C15
+// ------------------------------------------------------------------------------------------------
+pub struct StatsRt;
+
+impl Scenario for StatsRt {
+    fn property(&self) -> &'static str {
+        "C15"
+    }
+    fn level(&self) -> &'static str {
+        "fault_enumeration"
+    }
+    fn n_cases(&self, tier: Tier) -> u64 {
+        match tier {
+            Tier::Quick => 400,
+            Tier::Thorough => 12_000,
+        }
+    }
+    fn rule(&self) -> String {
+        "case = a history of runs on one input: run A (`check <mode> ... -S file -D json|toml`, own schedule) writes \
+         the statistics file; run B (same input and options plus `-i file`, a DIFFERENT schedule seed, capacity cap and \
+         benign I/O faults) must accept it: no mismatch message, same exit status. Then the stored file is corrupted: \
+         EVERY leaf value that the run also collects is perturbed one at a time (numbers +-1, strings altered, system \
+         ID replaced by another valid one, absent optional values filled in) - complete enumeration per file in 2 of \
+         3 cases, every 7th leaf otherwise - and the input is changed (one more packet); each time run B must report \
+         the mismatch and exit with the -E status. Inputs: conforming, corrupted (1..6 faults; messages with quotes, \
+         brackets and newlines), multi-link; all five check modes; -m on/off; JSON and TOML. `executions` counts all \
+         runs incl. one per perturbed leaf; `fault_kinds_fired.stored_statistic_perturbed` counts the leaves. \
+         Non-trivial: >= 3 threads in run A; distinct: (input hash, trace hash)."
+            .into()
+    }
+    fn make(&self, seed: u64, case: u64, _tier: Tier) -> Trial {
+        let mut rng = Rng::new(seed);
+        let mode_i = (case % 5) as usize;
+        let mut cfg = GenCfg::swarm(&mut rng, mode_i == 4);
+        cfg.n_links = rng.range(1, 5) as usize;
+        cfg.hbfs = (1, 2);
+        let mut st = gen_conforming(&cfg, &mut rng);
+        let mut label = CHECK_MODES[mode_i].join(" ");
+        if rng.chance(2, 3) {
+            for _ in 0..rng.range(1, 6) {
+                loop {
+                    let mut probe = st.clone();
+                    let f = corrupt::corrupt_stream(&mut probe, &mut rng);
+                    if f != "size_inconsistent" {
+                        st = probe;
+                        break;
+                    }
+                }
+            }
+            label.push_str(" corrupted");
+        } else {
+            label.push_str(" conforming");
+        }
+        let ext = if rng.chance(1, 2) { "json" } else { "toml" };
+        label = format!("{label} {ext}");
+        let exit_code = rng.range(2, 255) as i32;
+        let mut parts = s(CHECK_MODES[mode_i]);
+        parts.extend(s(&["-E", &exit_code.to_string()]));
+        if rng.chance(1, 3) {
+            parts.push("-m".into());
+            label.push_str(" -m");
+        }
+        let im = pick_input_mode(&mut rng);
+        let mut pa = parts.clone();
+        pa.extend(s(&["-S", "@STATS@", "-D", ext]));
+        let mut a = specgen::spec(im.clone(), &pa, st.bytes());
+        a.stats_ext = ext.to_string();
+        let mut pb = parts.clone();
+        pb.extend(s(&["-i", "@INSTATS@"]));
+        let mut b = specgen::spec(im, &pb, st.bytes());
+        b.stats_ext = ext.to_string();
+        let est = 300 + st.total_packets() as u64 * 12;
+        swarm_schedule(&mut a, &mut rng, est);
+        swarm_schedule(&mut b, &mut rng, est);
+        if rng.chance(1, 2) {
+            benign_io(&mut b, &mut rng);
+        }
+        Trial::StatsRt { a, b, exit_code, enumerate_leaves: case % 3 != 2, label }
+    }
+}
+
+// ------------------------------------------------------------------------------------------------
+// C20
+// ------------------------------------------------------------------------------------------------
+pub struct Custom;
+
+impl Scenario for Custom {
+    fn property(&self) -> &'static str {
+        "C20"
+    }
+    fn n_cases(&self, tier: Tier) -> u64 {
+        match tier {
+            Tier::Quick => 2_400,
+            Tier::Thorough => 120_000,
+        }
+    }
+    fn rule(&self) -> String {
+        "four kinds of case, each on conforming streams with ground truth from the generator / independent walker and \
+         under seeded schedules (E9001/E9002 are computed by the collector after all producers have disconnected). \
+         (1) counts: every subset of {cdps, triggers_pht, rdh_version} with values equal to, one below and one above \
+         the truth (packets on the wire, packets with the PhT bit, header version), keys absent or commented out; \
+         oracle: [E9001]/[E9002] iff configured != observed, [E10] header-ID at every RDH iff the version differs, \
+         nothing else, exit status -E iff anything is expected. (2) a run without -c and a run with an all-default \
+         file (empty / comments only) give identical stderr, stdout, statistics and exit status. (3) outer-barrel chip \
+         count / chip orders on planned frames (chip lists 0..6, 8..14, shorter, shifted, permuted): a lane-error \
+         message with [E9004]/[E9005] at the frame start iff a lane's chip list violates the configured count / \
+         orders. (4) trigger period P with `check all its-stave -s <stave> -p P`: internal-trigger TDH sequences \
+         generated at period P' (equal or different, incl. wrap-around across orbits, with 0-30 % jitter and \
+         interleaved non-internal triggers); [E45] exactly at the TDHs whose BC distance mod 3564 to the previous \
+         internal-trigger TDH differs from P. Non-trivial: >= 4 threads."
+            .into()
+    }
+    fn make(&self, seed: u64, case: u64, _tier: Tier) -> Trial {
+        let mut rng = Rng::new(seed);
+        let exit_code = rng.range(2, 255) as i32;
+        match case % 4 {
+            0 => {
+                let mode_i = rng.usize_below(4);
+                let cfg = GenCfg::swarm(&mut rng, false);
+                let st = gen_conforming(&cfg, &mut rng);
+                let input = st.bytes();
+                let w = walk(&input);
+                let truth_cdps = w.pkts.len() as i64;
+                let truth_pht = w.pkts.iter().filter(|p| (p.rdh.trigger_type >> 4) & 1 == 1).count() as i64;
+                let truth_ver = w.pkts.first().map(|p| p.rdh.version).unwrap_or(7) as i64;
+                let mut toml = String::new();
+                let mut exp = crate::trials::CustomExpect::default();
+                let around = |t: i64, rng: &mut Rng| -> i64 {
+                    match rng.below(3) {
+                        0 => t,
+                        1 if t > 0 => t - 1,
+                        _ => t + 1,
+                    }
+                };
+                let subset = rng.below(8);
+                if subset & 1 != 0 {
+                    let v = around(truth_cdps, &mut rng);
+                    toml.push_str(&format!("cdps = {v}\n"));
+                    exp.e9001 = v != truth_cdps;
+                } else if rng.chance(1, 2) {
+                    toml.push_str("# cdps = 20\n");
+                }
+                if subset & 2 != 0 {
+                    let v = around(truth_pht, &mut rng);
+                    toml.push_str(&format!("triggers_pht = {v}\n"));
+                    exp.e9002 = v != truth_pht;
+                } else if rng.chance(1, 2) {
+                    toml.push_str("#triggers_pht = 0\n");
+                }
+                if subset & 4 != 0 {
+                    let v = if rng.chance(1, 2) { truth_ver } else { 13 - truth_ver };
+                    toml.push_str(&format!("rdh_version = {v}\n"));
+                    if v != truth_ver {
+                        exp.e10_offsets = w.pkts.iter().map(|p| p.off as u64).collect();
+                    }
+                }
+                let mut parts = s(CHECK_MODES[mode_i]);
+                parts.extend(s(&["-c", "@CHECKS@", "-E", &exit_code.to_string()]));
+                let im = pick_input_mode(&mut rng);
+                let mut spec = specgen::spec(im, &parts, input);
+                spec.custom_checks_toml = Some(toml);
+                if rng.chance(4, 5) {
+                    swarm_schedule(&mut spec, &mut rng, 300 + st.total_packets() as u64 * 12);
+                }
+                Trial::Custom { spec, expect: exp, exit_code, label: format!("counts | {} | subset {subset}", CHECK_MODES[mode_i].join(" ")) }
+            }
+            1 => {
+                let mode_i = rng.usize_below(5);
+                let cfg = GenCfg::swarm(&mut rng, mode_i == 4);
+                let mut st = gen_conforming(&cfg, &mut rng);
+                if rng.chance(1, 2) {
+                    for _ in 0..rng.range(1, 3) {
+                        loop {
+                            let mut probe = st.clone();
+                            let f = corrupt::corrupt_stream(&mut probe, &mut rng);
+                            if f != "size_inconsistent" {
+                                st = probe;
+                                break;
+                            }
+                        }
+                    }
+                }
+                let mut parts = s(CHECK_MODES[mode_i]);
+                parts.extend(s(&["-E", &exit_code.to_string(), "-S", "@STATS@", "-D", "json"]));
+                let im = pick_input_mode(&mut rng);
+                let a = specgen::spec(im.clone(), &parts, st.bytes());
+                parts.extend(s(&["-c", "@CHECKS@"]));
+                let mut b = specgen::spec(im, &parts, st.bytes());
+                b.custom_checks_toml = Some(
+                    (*rng.pick(&["", "# nothing configured\n", "# cdps = 10\n#triggers_pht = 0\n# rdh_version = 7\n", "\n\n"]))
+                        .to_string(),
+                );
+                Trial::SameOutputs { a, b, label: format!("absent vs all-default file | {}", CHECK_MODES[mode_i].join(" ")) }
+            }
+            2 => {
+                use itsgen::alpide::{Chip, LaneFrame};
+                use itsgen::gen::{Barrel, FrameSpec};
+                let barrel = if rng.chance(1, 2) { Barrel::Middle } else { Barrel::Outer };
+                let lanes = legal_lane_ids(barrel, &mut rng);
+                let lists: [&[u8]; 7] = [
+                    &[0, 1, 2, 3, 4, 5, 6],
+                    &[8, 9, 10, 11, 12, 13, 14],
+                    &[0, 1, 2, 3, 4, 5],
+                    &[1, 2, 3, 4, 5, 6, 7],
+                    &[6, 5, 4, 3, 2, 1, 0],
+                    &[0, 1, 2, 3, 4, 5, 6, 7],
+                    &[8, 9, 10, 11, 12, 14, 13],
+                ];
+                let cfg_count: Option<usize> = if rng.chance(2, 3) { Some(*rng.pick(&[7usize, 6, 8])) } else { None };
+                let cfg_orders: Option<Vec<Vec<u8>>> = if rng.chance(2, 3) {
+                    Some(match rng.below(3) {
+                        0 => vec![lists[0].to_vec(), lists[1].to_vec()],
+                        1 => vec![lists[0].to_vec()],
+                        _ => vec![lists[1].to_vec(), lists[3].to_vec(), lists[2].to_vec()],
+                    })
+                } else {
+                    None
+                };
+                let mut plan = Vec::new();
+                let mut verdicts: Vec<(bool, bool)> = Vec::new(); // (E9004 expected, E9005 expected)
+                for _ in 0..40 {
+                    let bc = rng.below(256) as u8;
+                    let mut e4 = false;
+                    let mut e5 = false;
+                    let deviates = rng.chance(1, 3);
+                    let lfs: Vec<LaneFrame> = lanes
+                        .iter()
+                        .map(|&lane_id| {
+                            let list: &[u8] = if deviates && rng.chance(1, 4) { lists[rng.usize_below(7)] } else { lists[rng.usize_below(2)] };
+                            let count_ok = cfg_count.map_or(true, |c| list.len() == c);
+                            if !count_ok {
+                                e4 = true;
+                            } else if let Some(o) = &cfg_orders {
+                                if !o.iter().any(|x| x.as_slice() == list) {
+                                    e5 = true;
+                                }
+                            }
+                            LaneFrame {
+                                lane_id,
+                                chips: list.iter().map(|&id| Chip { id, bc, empty: rng.chance(1, 4), flags: rng.below(16) as u8 }).collect(),
+                                fatal_ape: None,
+                            }
+                        })
+                        .collect();
+                    verdicts.push((e4, e5));
+                    plan.push(FrameSpec { lanes: lfs, hit_seed: rng.next_u64() });
+                }
+                let mut cfg = GenCfg::swarm(&mut rng, true);
+                cfg.n_links = 1;
+                cfg.barrels = Some(vec![barrel]);
+                cfg.hbfs = (1, 2);
+                cfg.data_pages = (1, 3);
+                cfg.triggers = (1, 3);
+                cfg.frame_plan = plan;
+                let st = gen_conforming(&cfg, &mut rng);
+                let frames = itsgen::faults::scan_frames(&st, 0);
+                let offs = st.offsets();
+                let mut exp = crate::trials::CustomExpect::default();
+                for (f, (e4, e5)) in frames.iter().zip(verdicts.iter()) {
+                    let k = st.order.iter().position(|&(l, p)| l == 0 && p == f.start.0).unwrap();
+                    let off = (offs[k] + st.links[0].packets[f.start.0].word_offset(f.start.1)) as u64;
+                    if *e4 {
+                        exp.frame_codes.push((off, "E9004".into()));
+                    }
+                    if *e5 {
+                        exp.frame_codes.push((off, "E9005".into()));
+                    }
+                    if !*e4 && !*e5 {
+                        exp.clean_frames.push(off);
+                    }
+                }
+                let mut toml = String::new();
+                if let Some(c) = cfg_count {
+                    toml.push_str(&format!("chip_count_ob = {c}\n"));
+                }
+                if let Some(o) = &cfg_orders {
+                    toml.push_str(&format!("chip_orders_ob = {:?}\n", o));
+                }
+                let mut parts = s(CHECK_MODES[4]);
+                parts.extend(s(&["-c", "@CHECKS@", "-E", &exit_code.to_string()]));
+                let im = pick_input_mode(&mut rng);
+                let mut spec = specgen::spec(im, &parts, st.bytes());
+                spec.custom_checks_toml = Some(toml);
+                if rng.chance(4, 5) {
+                    swarm_schedule(&mut spec, &mut rng, 300 + st.total_packets() as u64 * 20);
+                }
+                Trial::Custom { spec, expect: exp, exit_code, label: format!("chip count/order | {barrel:?}") }
+            }
+            _ => {
+                let p_gen = *rng.pick(&[1u16, 2, 89, 198, 1000, 1782, 3563]);
+                let p_cfg = if rng.chance(1, 2) { p_gen } else { *rng.pick(&[1u16, 88, 198, 199, 3563, 1782]) };
+                let mut cfg = GenCfg::swarm(&mut rng, true);
+                cfg.n_links = rng.range(1, 3) as usize;
+                cfg.triggers = (1, 1);
+                cfg.p_split = 0;
+                cfg.p_internal = *rng.pick(&[1000u64, 700]);
+                cfg.trigger_period = if rng.chance(5, 6) { Some(p_gen) } else { None };
+                cfg.period_jitter = *rng.pick(&[0u64, 0, 100, 300]);
+                cfg.hbfs = (2, 8);
+                cfg.data_pages = (1, 4);
+                let st = gen_conforming(&cfg, &mut rng);
+                let li = rng.usize_below(st.links.len());
+                let fee = st.links[li].fee_id;
+                // reference model: per selected stave, BC distance between consecutive internal-trigger TDHs
+                let offs = st.offsets();
+                let mut exp = crate::trials::CustomExpect::default();
+                let mut prev_internal: Option<u16> = None;
+                for (pi, pk) in st.links[li].packets.iter().enumerate() {
+                    let k = st.order.iter().position(|&(l, p)| l == li && p == pi).unwrap();
+                    for (wi, w) in pk.words.iter().enumerate() {
+                        if w.kind != itsgen::words::Kind::Tdh {
+                            continue;
+                        }
+                        let t = itsgen::words::Tdh::from_word(&w.word);
+                        if !t.continuation && t.internal {
+                            if let Some(pb) = prev_internal {
+                                let d = (t.bc as i32 - pb as i32).rem_euclid(3564) as u16;
+                                if d != p_cfg {
+                                    exp.e45_offsets.push((offs[k] + pk.word_offset(wi)) as u64);
+                                }
+                            }
+                        }
+                        if t.internal {
+                            prev_internal = Some(t.bc);
+                        }
+                    }
+                }
+                let mut parts = s(CHECK_MODES[4]);
+                parts.extend(Filter::Stave(fee).args());
+                parts.extend(s(&["-p", &p_cfg.to_string(), "-E", &exit_code.to_string()]));
+                let im = pick_input_mode(&mut rng);
+                let mut spec = specgen::spec(im, &parts, st.bytes());
+                if rng.chance(4, 5) {
+                    swarm_schedule(&mut spec, &mut rng, 300 + st.total_packets() as u64 * 20);
+                }
+                Trial::Custom {
+                    spec,
+                    expect: exp,
+                    exit_code,
+                    label: format!("trigger period | {}", if p_cfg == p_gen { "configured == generated" } else { "configured != generated" }),
+                }
+            }
+        }
     }
 }
